@@ -39,6 +39,8 @@ def alphabet(tier):
               "SETFH", "SETFH 5", "SETFH 5 1", "SETFH 5 1 %d" % F1, "SETFH 0 0 %d %d" % (F1, F2),
               "SETFH 5 1 %d %d %d %d" % (F1, F2, F2, F1), "SETFH 63 2 %d %d %d %d %d %d" % (F1, F2, F2, F1, F3, F3),
               "SETFH 5 1 %d %d %d" % (F1, F2, F2), fh64(),
+              "SETFH 64 1 %d %d %d %d" % (F1, F2, F2, F1), "SETFH -1 0 %d %d" % (F1, F2),     # refused: nothing changes
+
               "SETFORMAT -1", "SETFORMAT 0", "SETFORMAT 1", "SETFORMAT 2", "SETFORMAT 15", "SETFORMAT 16", "SETFORMAT",
               "SETFORMAT 1 1",
               "SETPOWER 0", "SETPOWER 10", "SETPOWER", "SETPOWER 1 2", "NOMTXPOWER", "NOMTXPOWER 1",
